@@ -208,20 +208,19 @@ def chanInstrs (allLocal : Bool) (m : SlmMask) (k : Nat) (v : ChanView) : List N
     NInstr.add v.basis none k (startT m v) none 1 ::
       (if startT m v = 0 then []
        else
-        -- `unmasked_targets = cs.slots[0].targets - self._slm_mask.targets`
-        let unmasked := ((match v.slots.head? with | some s0 => s0.targets | none => []).eraseDups).filter
-          fun q => !m.targets.contains q
-        unmasked.map fun q => NInstr.add v.basis (some q) k 0 (some (startT m v)) 1)
+        match v.slots.head? with
+        -- `if not cs.slots: continue` (a channel without pulses adds nothing; repair of F-C06-2)
+        | none => []
+        | some s0 =>
+          -- `unmasked_targets = cs.slots[0].targets - self._slm_mask.targets`
+          let unmasked := s0.targets.eraseDups.filter fun q => !m.targets.contains q
+          unmasked.map fun q => NInstr.add v.basis (some q) k 0 (some (startT m v)) 1)
   else
     (if v.slots.isEmpty then v.initialTargets.eraseDups.map (NInstr.touch v.basis) else []) ++
     v.slots.flatMap fun s => s.targets.eraseDups.map fun q =>
       -- `if in_xy and t in self._slm_mask.targets: ti = max(ti, self._slm_mask.end)`
       let ti := if v.basis == .xy && m.targets.contains q then max s.ti m.end_ else s.ti
       NInstr.add v.basis (some q) k ti (some s.tf) (v.weight q)
-
-/-- `cs.slots[0]` on a channel without pulses: `to_nested_dict` raises `IndexError`. -/
-def chanRaises (allLocal : Bool) (m : SlmMask) (v : ChanView) : Bool :=
-  v.globalBranch allLocal && decide (startT m v â‰  0) && v.slots.isEmpty
 
 def nestedInstrsFrom (allLocal : Bool) (m : SlmMask) (k : Nat) : List ChanView â†’ List NInstr
   | [] => []
@@ -230,9 +229,6 @@ def nestedInstrsFrom (allLocal : Bool) (m : SlmMask) (k : Nat) : List ChanView â
 /-- All accumulation statements of `to_nested_dict(all_local)`, in execution order. -/
 def nestedInstrs (allLocal : Bool) (m : SlmMask) (views : List ChanView) : List NInstr :=
   nestedInstrsFrom allLocal m 0 views
-
-def nestedRaises (allLocal : Bool) (m : SlmMask) (views : List ChanView) : Bool :=
-  views.any (chanRaises allLocal m)
 
 /-- Does the statement add sample `t` of its channel to entry `(basis, q)`?  Returns the
 channel position and the factor applied to the detuning. -/
